@@ -18,12 +18,12 @@ const sliceN = 4 // backing store bound (elements)
 const numN = 3   // appended elements bound
 
 // appendStep: one SliceAppend from an arbitrary valid pre-state.
-func appendStep(et int) {
+func appendStep(et, sliceN, numN int) {
 	s := mkSlice("s", et, sliceN)
 	num := nd_int("num")
 	nd_assume(0 <= num && num <= numN)
 	data := nd_alloc("d", numN*et)
-	var old [sliceN * 24]byte
+	var old [4 * 24]byte
 	for i := 0; i < s.len*et; i++ {
 		old[i] = zb(s.data, i)
 	}
@@ -46,12 +46,12 @@ func appendStep(et int) {
 	nd_reach("C05.append")
 }
 
-func H_append_et0()  { appendStep(0) }
-func H_append_et1()  { appendStep(1) }
-func H_append_et2()  { appendStep(2) }
-func H_append_et3()  { appendStep(3) }
-func H_append_et8()  { appendStep(8) }
-func H_append_et24() { appendStep(24) }
+func H_append_et0()  { appendStep(0, 4, 3) }
+func H_append_et1()  { appendStep(1, 4, 3) }
+func H_append_et2()  { appendStep(2, 4, 3) }
+func H_append_et3()  { appendStep(3, 3, 2) }
+func H_append_et8()  { appendStep(8, 3, 2) }
+func H_append_et24() { appendStep(24, 2, 1) }
 
 // appendAlias: append(s[:i], s[j:]...) — source inside the destination's
 // backing array.  Go semantics: result is old[0:i] ++ old[j:len].
